@@ -22,6 +22,7 @@ def handleSign (op : String) (a : Json) : Option Json :=
           .verify { keys.getD (getInt o "mat").toNat Key.zero with keyid := (keys.getD (getInt o "id").toNat Key.zero).keyid, priv := [] }
         | "dumpload" => .dumpload
         | "setname" => .setName (L (getStr o "s"))
+        | "poke" => .poke (L (getStr o "s"))
         | _ => .corrupt (getInt o "i").toNat
       -- the history is folded op by op (`Sign.run` is this fold over `sstep`); "setfrac" is the one
       -- operation outside `SOp`: `Sign.trySetFrac`
